@@ -18,4 +18,5 @@ ${EMIT}
 INVARIANTS TypeOK NoPanic ErrorBeforeDone MutexOK RendezvousPaired StartedAfterCloseFails EofMeansCloseWrite
            DeadlineUnblocks TimerOnlyIfOpen BlockedLegitimately ClosedDrains
 PROPERTIES AtomicWrites ChunkIsNext CountIsConsumed WriteResult ClosedForever ReverseUnaffected
+           SetDCoversBothHalves CloseCoversBothHalves
 CHECK_DEADLOCK FALSE
